@@ -6,12 +6,16 @@
    FULL STATEMENT (property text): for OUTPUT and INPUT conversions of a state variable, the free variable, a constant
    or a computed variable, and any sequence of them.  PROVED here for all models, valuations and factors: OUTPUT (any
    variable, incl. states and time) and INPUT of any variable that is neither a state nor the free variable, plus the
-   no-op, error and bookkeeping clauses.  NOT YET PROVED (hence "_partial"): INPUT of a state variable and of the
-   free variable (ODE rewriting + derivative substitution); those cases are modelled (Model/ConvertVar.v), tied by the
-   correspondence check and decided by the numeric oracle, and the substitution lemmas they need are proved
-   (C06_derivative_substitution, C06_fresh_atom). *)
+   no-op, error and bookkeeping clauses, AND INPUT of a state variable (ODE moved to a new variable, new ODE for the
+   converted state, derivative references replaced).  NOT YET PROVED (hence "_partial"): INPUT of the free variable
+   (every ODE rewritten) and the closure under sequences; those are modelled (Model/ConvertVar.v), tied by the
+   correspondence check and decided by the numeric oracle; the lemmas they need are proved
+   (C06_derivative_substitution, C06_fresh_atom, C06_replace_references_is_substitution).
+   The syntactic premises (fresh_var / fresh_atom / NoDup of left-hand sides) say that the next variable indices are
+   new and no variable is defined twice; the interpreter evaluates them on every correspondence case (premises_hold). *)
 From Coq Require Import List ZArith QArith Bool Reals Qreals.
-From Verif Require Import Sexp UnitAlg UnitAlgP Expr Eval ModelSM ConvertVar C06EvalP C06P C06ShapeP C06MainP.
+From Coq Require Import Permutation.
+From Verif Require Import Sexp UnitAlg UnitAlgP Expr Eval ModelSM ConvertVar C06EvalP C06P C06ShapeP C06ReplaceP C06StateP C06MainP.
 Import ListNotations.
 Open Scope R_scope.
 
@@ -35,6 +39,32 @@ Theorem C06_input_computed_or_constant_equiv_partial : forall fsem psem csem,
     (Sat fsem psem csem nu dl (ceqs s') -> Sat fsem psem csem nu dl (ceqs s) /\ nu n = nu v * k).
 Proof. exact input_plain_conversion. Qed.
 Print Assumptions C06_input_computed_or_constant_equiv_partial.
+
+(* INPUT of a state variable: every pre-existing variable keeps its value, new = factor x original,
+   d new/dt = factor x d original/dt, and the old derivative's value lives on in the new variable S n *)
+Theorem C06_input_state_equiv_partial : forall fsem psem csem,
+  (forall x, x <> 0 -> psem x (Q2R (-1 # 1)) = Some (/ x)) ->
+  forall s v target mv s' n ode t,
+  convert_variable s v target DInput mv = COk (s', n) -> n <> v ->
+  ode_def s v = Some ode -> q_lhs ode = CLD v t ->
+  var_def s v = None -> (forall t0, free_var s = Some t0 -> t0 <> v) ->
+  NoDup (map q_lhs (ceqs s)) ->
+  fresh_var (length (cvars s)) (ceqs s) = true -> fresh_var (S (length (cvars s))) (ceqs s) = true ->
+  fresh_atom (length (cvars s)) t (ceqs s) = true -> (v < length (cvars s))%nat ->
+  exists k, 0 < k /\ forall nu dl,
+    (Sat fsem psem csem nu dl (ceqs s) ->
+     Sat fsem psem csem (upd (upd nu n (nu v * k)) (S n) (dl v t)) (updd dl n t (dl v t * k)) (ceqs s')) /\
+    (Sat fsem psem csem nu dl (ceqs s') ->
+     Sat fsem psem csem nu (updd dl v t (nu (S n))) (ceqs s) /\ nu n = nu v * k /\ dl n t = nu (S n) * k).
+Proof. exact input_state_conversion. Qed.
+Print Assumptions C06_input_state_equiv_partial.
+
+(* _replace_references_to_derivatives is, up to the order of the equations, substitution in the equations that mention
+   the old derivative *)
+Theorem C06_replace_references_is_substitution : forall m l, NoDup (map q_lhs l) ->
+  Permutation (replace_derivs m l) (replaced m l).
+Proof. exact replace_derivs_perm. Qed.
+Print Assumptions C06_replace_references_is_substitution.
 
 Theorem C06_power_law_instance : forall x, x <> 0 -> pow_sem x (Q2R (-1 # 1)) = Some (/ x).
 Proof. exact pow_sem_inv. Qed.
